@@ -33,8 +33,6 @@ var (
 	flagOne   = flag.String("c09one", "", "internal: hex input to execute once in the child (replay)")
 )
 
-var dbgCall, dbgQ time.Duration
-
 const hangCap = 10 * time.Second // only ever classifies a HANG
 
 // seed is one valid sample message of a protocol plus the positions of its
@@ -258,16 +256,12 @@ func (e *engine) runJobs(t *target, jobs []job, jobIdx []int, nw int, skipJob, s
 					sl.cur = b
 					sl.mu.Unlock()
 					sl.start.Store(time.Now().UnixNano())
-					t1 := time.Now()
 					nt, p := safeCall(t, ctx, in)
 					sl.start.Store(0)
 					sl.seq.Add(1)
-					t2 := time.Now()
 					if quiesce != nil {
 						quiesce()
 					}
-					dbgCall += t2.Sub(t1)
-					dbgQ += time.Since(t2)
 					lc++
 					if nt {
 						ln++
@@ -725,9 +719,6 @@ func childMain(run *report.Run, ts []*target) int {
 	calls, nt, hung := e.runJobsChild(t, jobs, idx, skipJob, skipIdx, onCall, quiesce, &base)
 	for _, w := range e.sorted() {
 		enc.Encode(childMsg{Viol: &childViol{Kind: w.kind, Site: w.site, Msg: w.msg, Stack: w.stack, Input: hex.EncodeToString(w.input), Count: w.count}})
-	}
-	if os.Getenv("C09_TIMING") != "" {
-		fmt.Fprintf(os.Stderr, "call=%v quiesce=%v\n", dbgCall, dbgQ)
 	}
 	if hung {
 		enc.Encode(childMsg{Hung: true, Evals: calls, NT: nt})
